@@ -20,6 +20,10 @@ class EvalError(Exception):
     pass
 
 
+class TooExpensive(Unconstrained):
+    """The evaluation exceeded its step budget (nested quantifiers)."""
+
+
 class UVal(object):
     """Element of an uninterpreted sort."""
     __slots__ = ('sort', 'k')
@@ -396,10 +400,12 @@ def str_replace(s, t, t2):
 class Evaluator(object):
     """Evaluates blueprints under an interpretation I (name -> value)."""
 
-    def __init__(self, I, D=None):
+    def __init__(self, I, D=None, max_steps=150000):
         self.I = I
         self.D = D
         self.tmemo = {}
+        self.steps = 0
+        self.max_steps = max_steps
 
     def ty(self, b):
         return B.typeof(b, self.tmemo)
@@ -420,6 +426,9 @@ class Evaluator(object):
 
     def _ev1(self, b, bound, memo):
         op, pl, kids = b
+        self.steps += 1
+        if self.steps > self.max_steps:
+            raise TooExpensive()
         E = lambda c: self._ev(c, bound, memo)
         if op == 'sym':
             name = pl[0]
@@ -634,8 +643,8 @@ class Evaluator(object):
         raise EvalError(op)
 
 
-def evaluate(b, I, D=None):
-    return Evaluator(I, D).ev(b)
+def evaluate(b, I, D=None, max_steps=150000):
+    return Evaluator(I, D, max_steps).ev(b)
 
 
 def value_to_bp(v, t):
